@@ -91,7 +91,8 @@ pub fn run(lts: Arc<Lts>, o: &WalkOpts, pairs: usize) -> Value {
         // through the overlay (whiteout marker) - and the faulted operation re-creates something at that path
         // (marker and entry side by side if the fault hits between the two steps)
         let present: Vec<usize> = (0..lts.universe.len()).filter(|&i| s[i][0] != 0).collect();
-        let prep: Option<(Vec<String>, bool)> = if o.cfg.contains("ovl") && !present.is_empty() && rng.gen_bool(0.35) {
+        // (top-level overlays only: an altroot configuration has a twin world that would have to share the history)
+        let prep: Option<(Vec<String>, bool)> = if o.cfg.starts_with("ovl") && !present.is_empty() && rng.gen_bool(0.35) {
             let i = *present.choose(&mut rng).unwrap();
             Some((lts.universe[i].clone(), s[i][0] == 1))
         } else {
